@@ -61,6 +61,10 @@ def child_main(argv):
     since = set()
     grown = 0
     f = nix.File.open(path, nix.FileMode.Overwrite, compression=comp)
+    # some writers use the file as a context manager for the whole session: their flush() calls happen INSIDE the with block
+    in_with = rng.random() < 0.35
+    if in_with:
+        f.__enter__()
     B = gen.Builder(nix, f, rng)
     if auto_off:
         f.auto_update_timestamps = False
@@ -90,7 +94,7 @@ def child_main(argv):
                 snap = snapshot.snapshot(nix, B.f)
                 rec = {"table": snap.table, "kind": kind, "comp": str(comp), "since": sorted(since), "grown": grown,
                        "entities": len(snap.table), "step": i, "flush_density": pflush, "auto_timestamps": not auto_off,
-                       "flushes_before": sum(1 for x in points if x == "flush")}
+                       "flushes_before": sum(1 for x in points if x == "flush"), "inside_with_block": in_with}
                 mfd = None
                 if os.environ.get("NIXMON_C17_MARKER"):
                     mfd = os.open(os.environ["NIXMON_C17_MARKER"], os.O_WRONLY | os.O_CREAT | os.O_APPEND)
@@ -115,6 +119,8 @@ def child_main(argv):
             if kind != "flush":
                 B.f.close()
                 B.f = nix.File.open(path, nix.FileMode.ReadWrite, compression=comp)
+                if in_with:
+                    B.f.__enter__()
                 if auto_off:
                     B.f.auto_update_timestamps = False
             else:
@@ -258,7 +264,8 @@ def run_shard(spec, ctx):
             ctx.count("children_killed")
             ctx.count("point:" + rec2["kind"])
             ctx.count("ops_since_previous_point:%s" % min(len(rec2["since"]), 5))
-            ctx.case((rec2["kind"], rec2["comp"], tuple(rec2["since"]), min(rec2["grown"] // 2000, 5), rec2.get("auto_timestamps")),
+            ctx.count("points_inside_a_with_block" if rec2.get("inside_with_block") else "points_outside_a_with_block")
+            ctx.case((rec2["kind"], rec2["comp"], tuple(rec2["since"]), min(rec2["grown"] // 2000, 5), rec2.get("auto_timestamps"), rec2.get("inside_with_block")),
                      sample={"flushes_before_this_point": rec2.get("flushes_before"), "automatic_timestamps": rec2.get("auto_timestamps"), "point_kind": rec2["kind"], "compression": rec2["comp"], "ops_since_previous_point": rec2["since"],
                              "elements_appended": rec2["grown"], "entities": rec2["entities"]})
         # one control per history: killed at its last point WITHOUT the flush
